@@ -645,6 +645,11 @@ def apply(func, args, kwargs=None):
                 and func in ("cmp_eq", "cmp_ne"):
             same = sa.func == sb.func
             return Rat.const(1 if same == (func == "cmp_eq") else 0)
+        if func in ("cmp_eq", "cmp_ne") and sa is not None and sb is not None and sa.func != sb.func \
+                and sa.func.startswith("call:verif.") and sb.func.startswith("call:verif.") \
+                and sa.func.rsplit(".", 1)[0] == sb.func.rsplit(".", 1)[0] and sa.func.rsplit(".", 1)[0] in ("call:verif.axis", "call:verif.field", "call:verif.aggregator"):
+            # instances of two different Axis / Field / Aggregator classes are never equal (their __eq__ compares the class first)
+            return Rat.const(0 if func == "cmp_eq" else 1)
         if func in ("cmp_eq", "cmp_ne"):
             ka, kb = a.key(), b.key()
             if (ka == "$None" and _definitely_value(b)) or (kb == "$None" and _definitely_value(a)):
